@@ -270,6 +270,18 @@ fn chain_source_maps(
                             name_idx,
                             false,
                         );
+                    } else {
+                        // nothing in the original map at or before this position: the generated
+                        // position is unmapped too (it must not inherit the previous token)
+                        builder.add_raw(
+                            token.get_dst_line(),
+                            token.get_dst_col(),
+                            0,
+                            0,
+                            None,
+                            None,
+                            false,
+                        );
                     }
                 }
 
